@@ -34,6 +34,9 @@ pub enum Pattern {
     /// the server's bytes keep coming (every h/4) but a single frame takes more
     /// than 2h to complete: any inbound traffic counts as liveness
     Trickle,
+    /// the server streams deliveries to a no-ack consumer without a pause for 2.6 h; the
+    /// client has nothing to send, so its heartbeats are due all the same
+    Flood,
 }
 
 fn hb_frame() -> Vec<u8> {
@@ -135,6 +138,49 @@ pub fn run_pattern(hsecs: u16, extra: (u16, u16), p: Pattern, res: &mut CaseResu
             h.inject(hb_frame());
             alive_until = Instant::now();
         }
+        Pattern::Flood => {
+            let ch = match conn.open_channel(None) {
+                Ok(c) => c,
+                Err(e) => {
+                    res.inconclusive(ek(&e));
+                    return;
+                }
+            };
+            let cons = match ch.basic_consume("flood", amiquip::ConsumerOptions { no_ack: true, ..Default::default() }) {
+                Ok(c) => c,
+                Err(e) => {
+                    res.inconclusive(ek(&e));
+                    return;
+                }
+            };
+            let tag = cons.consumer_tag().to_string();
+            let id = ch.channel_id();
+            // one block of 500 small deliveries, sent again and again; never let the client
+            // run out of bytes to read
+            let m = crate::reflex::Msg { exchange: "x".into(), routing_key: "flood".into(), redelivered: false, delivery_tag: 1, props: Default::default(), body: vec![7u8; 64], message_count: 0 };
+            let one: Vec<u8> = crate::reflex::deliver_frames(id, &tag, &m, &[64]).concat();
+            let block: Vec<u8> = one.iter().cycle().take(one.len() * 500).cloned().collect();
+            // everything is there before the client starts reading it: one uninterrupted read
+            // pass of a few seconds (the size is chosen for the speed of a debug build; a
+            // faster client simply gets a shorter flood)
+            h.with(|st| st.hold_read = true);
+            h.inject(hb_frame());
+            h.wait(crate::session::W, |st| st.parked_in_read);
+            let nblocks = 2600;
+            for _ in 0..nblocks {
+                h.inject_chunks(vec![block.clone()]);
+            }
+            let flood_start = Instant::now();
+            h.with(|st| st.hold_read = false);
+            res.obs("flood_blocks_sent", nblocks);
+            // drain what is left, then a lively tail
+            h.wait(crate::session::W, |st| st.inq.is_empty());
+            res.obs("flood_ms", flood_start.elapsed().as_millis() as u64);
+            alive_until = Instant::now();
+            // the consumer is not read (its queue is unbounded); forget it, drop the channel
+            std::mem::forget(cons);
+            std::mem::forget(ch);
+        }
         Pattern::Disabled => {
             std::thread::sleep(Duration::from_millis(3000));
             alive_until = Instant::now();
@@ -192,11 +238,11 @@ pub fn run_pattern(hsecs: u16, extra: (u16, u16), p: Pattern, res: &mut CaseResu
                 res.violate("silence_fatal_when_disabled", "connection ended during 3 s of silence with h=0".to_string());
             }
         }
-        Pattern::Idle | Pattern::ServerEvery(_) | Pattern::Silence | Pattern::Trickle => {
+        Pattern::Idle | Pattern::ServerEvery(_) | Pattern::Silence | Pattern::Trickle | Pattern::Flood => {
             // every gap between consecutive client writes (and from the last write to the end
             // of the observation) must be <= h + tolerance
             let mut marks: Vec<Instant> = h.peek(|st| st.writes.iter().map(|w| w.at).collect());
-            let end = h.peek(|st| st.released_at).unwrap_or_else(Instant::now).min(if p == Pattern::Idle || p == Pattern::Trickle { alive_until } else { Instant::now() });
+            let end = h.peek(|st| st.released_at).unwrap_or_else(Instant::now).min(if p == Pattern::Idle || p == Pattern::Trickle || p == Pattern::Flood { alive_until } else { Instant::now() });
             marks.retain(|m| *m <= end);
             marks.push(end);
             let mut worst = Duration::from_millis(0);
@@ -204,6 +250,9 @@ pub fn run_pattern(hsecs: u16, extra: (u16, u16), p: Pattern, res: &mut CaseResu
                 worst = worst.max(w[1].duration_since(w[0]));
             }
             res.obs("worst_idle_gap_ms", worst.as_millis() as u64);
+            if p == Pattern::Flood {
+                res.obs("flood_worst_gap_ms", worst.as_millis() as u64);
+            }
             if worst > hd + SEND_TOL {
                 if worst > hd + Duration::from_secs(3) {
                     res.inconclusive(format!("idle gap {:?} (machine overloaded?)", worst));
@@ -266,7 +315,7 @@ pub fn run(rc: &mut RunCtx) {
     let hs: &[u16] = if rc.quick() { &[1] } else { &[1, 2, 3] };
     let mut cases: Vec<(u16, Pattern)> = Vec::new();
     for &hh in hs {
-        for p in [Pattern::Idle, Pattern::Silence, Pattern::ServerEvery(9), Pattern::ServerEvery(18), Pattern::ServerEvery(5), Pattern::Busy, Pattern::StalledTx, Pattern::Trickle] {
+        for p in [Pattern::Idle, Pattern::Silence, Pattern::ServerEvery(9), Pattern::ServerEvery(18), Pattern::ServerEvery(5), Pattern::Busy, Pattern::StalledTx, Pattern::Trickle, Pattern::Flood] {
             cases.push((hh, p));
         }
     }
